@@ -53,7 +53,6 @@ func (p place) arr() []float64 {
 var identityPlace = place{1, c3{}}
 var triPlaces = []place{{1.0 / (1 << 17), c3{}}, {1 << 10, c3{}}, {1, c3{X: 1 << 24, Y: -(1 << 25), Z: 1 << 23}}, {1.0 / (1 << 10), c3{X: 64, Y: -32, Z: 128}}}
 
-
 func xyz(x, y, z float64) c3 { return model3d.XYZ(x, y, z) }
 
 var triAlphabet = [][3]c3{
@@ -240,7 +239,6 @@ func buildTriIndexes(tris []*model3d.Triangle) []triIndex {
 	}
 	return out
 }
-
 
 // ---- two hierarchies built over the same child ----
 //
